@@ -23,6 +23,8 @@ type Val struct {
 	// Sub: for a slice value obtained as base[lo:...]: the base slice's offset term and lo; element i then lives at
 	// (ix baseOff (+ lo i)), which lets facts stated over the base slice's elements match syntactically
 	Sub *[2]string
+	// RawSort: for specification-only values that are not Go values (heap snapshots): their SMT sort
+	RawSort string
 }
 
 type Closure struct {
